@@ -81,6 +81,9 @@ def pool(tier):
     terms += [Lambda(xA, xA), Lambda(xA, P(A)(xA)), Comb(Lambda(xA, P(A)(xA)), yA), Comb(Lambda(xA, Lambda(yA, Eq(xA, yA))), yA)]
     terms += [Forall(xA, P(A)(xA)), Forall(xSA, ySA, Eq(xSA, ySA)), Forall(xA, Eq(xA, sxA)), Forall(xA, P(A)(yA))]
     terms += [Implies(Var('p', BoolType), SVar('q', BoolType)), Implies(P(A)(xA), P(A)(yA))]
+    # implications whose conclusion is an equation (rules must look at the proposition, not at what remains after stripping implications)
+    E0 = Eq(Implies(Const('false', BoolType), Const('false', BoolType)), Const('false', BoolType))
+    terms += [Implies(Var('p', BoolType), Eq(xA, yA)), Implies(E0, E0), Eq(Const('false', BoolType), Const('false', BoolType)), Implies(Const('false', BoolType), Const('false', BoolType))]
     terms += [Bound(0), P(A)(Bound(0)), Comb(P(A), sxSA), Eq(xA, xSA) if False else Comb(Var('f', TFun(A, A)), xA)]
     # function-typed variables as arguments of forall_intr / abstraction / reflexive (head-position occurrences in hypotheses)
     terms += [P(A), Var('f', TFun(A, A)), SVar('Q', TFun(A, BoolType))]
@@ -99,8 +102,8 @@ def pool(tier):
         for t in ts:
             insts.append({nm: t})
     # free-variable instantiations (Inst.var_inst, used by the veriT reconstruction): keys 'V:<name>'
-    for nm, ts in (('x', [yA, Var('c', A), Comb(Var('f', TFun(A, A)), xA), sxA, Var('c', B)]), ('p', [Const('false', BoolType), SVar('q', BoolType), Not(Var('p', BoolType))]),
-                   ('y', [xA])):
+    for nm, ts in (('x', [yA, Var('c', A), Comb(Var('f', TFun(A, A)), xA), sxA, Var('c', B), Bound(0)]), ('p', [Const('false', BoolType), SVar('q', BoolType), Not(Var('p', BoolType))]),
+                   ('y', [xA, Bound(0), Comb(P(A), Bound(0)) if False else Var('c', B)])):
         for t in ts:
             insts.append({'V:' + nm: t})
     insts.append({'V:x': yA, 'x': xA})
